@@ -30,6 +30,8 @@ H = 2.0**-10
 @S.composite
 def strategy_(g):
     case = E.gen_edge(g, info_kind=g.choice(["ident", "spd"]), max_cond=1e2)
+    # the vertices' fixed flags (as left behind by optimize(fix_first_pose=True) or set by the user) are irrelevant
+    case["fixed"] = [g.choice([False, False, True]), g.choice([False, False, True])]
     # a second state for the same edge object (history): the Jacobians must follow the *current* vertex poses
     alt = g.choice(["same-pose-other-representation", "independent", "independent"])
     case["alt"] = alt
@@ -91,6 +93,10 @@ def check(case, ctx):
     nontriv, S_ = E.classify_edge(case, ctx)
     ctx.nontrivial(nontriv)
     edge, v1, v2 = E.build_edge(case)
+    if "fixed" in case:
+        v1.fixed, v2.fixed = bool(case["fixed"][0]), bool(case["fixed"][1])
+        if any(case["fixed"]):
+            ctx.event("vertex-flagged-fixed")
     k0, k1, kz, ko = E.kinds_of(ek)
     c = [R.CDIM[k0], R.CDIM[k1]]
     n = E.err_dim(ek)
